@@ -1,5 +1,6 @@
 import VaxisModel.Lemmas.EdLangTFBody
 import VaxisModel.Lemmas.EdLangTIBody
+import VaxisModel.Props.C17
 
 /-!
 C17 — the bodies of the TextField's functions, translated from the source on every run
@@ -86,6 +87,21 @@ theorem clSane_of_segmentation (cl : List A → List (List A)) (h : VaxisModel.S
 /-- Non-vacuity: the segmentation that never merges is sane. -/
 example : ClSane (VaxisModel.Lemmas.EditorCl.singletons (A := Nat)) :=
   clSane_of_seg _ VaxisModel.Lemmas.EditorCl.singletons_seg
+
+open VaxisModel.Lemmas.EditorCl (TFOpC tfRunC absC specOfC) in
+open VaxisModel.Spec.Editor (runC) in
+/-- End to end, for EVERY segmentation meeting the three laws and every history (key events through
+    `HandleEvent`, calls of the exported API) from any starting content: the TextField as translated from
+    the source and run by the interpreter never gets stuck, holds the ideal editor's text with the cursor at
+    the ideal editor's grapheme index, the cursor within the text, and `n` the grapheme count. -/
+theorem textfield_source_refines (cl : List A → List (List A)) (hs : VaxisModel.Spec.Editor.Segmentation cl)
+    (isWord : List A → Bool) (start : List A) (ops : List (TFOpC A)) :
+    ∃ tf0 tf, tfStepI cl TextFieldCl.new (.ins start) = some tf0 ∧ tfRunI cl tf0 ops = some tf ∧
+      absC cl tf = runC cl isWord ⟨cl start, (cl start).length⟩ (ops.map (specOfC cl)) ∧
+      tf.cursor ≤ (cl tf.value).length ∧ tf.n = (cl tf.value).length := by
+  have hsane := clSane_of_seg cl hs
+  refine ⟨_, _, tfStepI_eq cl hsane _ _, tfRunI_eq cl hsane ops _, ?_⟩
+  exact VaxisModel.Props.C17.textfield_refines_clustered cl hs isWord start ops
 
 /-! ### textinput.Model -/
 
